@@ -7,4 +7,5 @@ CONSTANTS
   MaxLen = 3
   CtxMax = 1
   WithPlans = TRUE
+  WithCrlf = FALSE
 INVARIANT Emitted
